@@ -71,6 +71,35 @@ theorem P_gen_invalid_rejected (kw : KwargsJ ℝ) :
     rw [hR] at hbad
     cases e <;> simp_all [RefineConfig.errOf]
 
+/-- P (generated code): the flag form.  `StoG(**parse_cli_args(namespace))`, both regenerated, behaves as the hand model's
+    `settings (parseFlags flags)`: same success/error, same settings; the stem name given on the command line is the instance's stem name, and
+    `--merging offset scale` becomes the merged-S(Q) offset and scale -/
+theorem P_gen_flag_form (ns : ArgsNS ℝ) :
+    (match GenStog.construct (GenStog.parse_cli_args ns) with
+     | .ok g => Config.settings { Config.parseFlags (RefineConfig.toFlags ns) with stem := none, nFiles := 1 } = .ok (RefineConfig.viewSettings g) ∧
+         g.dr = Config.createDomain g.rmin g.rmax g.rdelta ∧ g.stem_name = ns.stem_name ∧
+         g.merged_opts = { Y := some { Offset := some ns.merging.1, Scale := some ns.merging.2 } }
+     | .error e => Config.settings { Config.parseFlags (RefineConfig.toFlags ns) with stem := none, nFiles := 1 } = .error (RefineConfig.errOf e)) := by
+  have hR := RefineConfig.construct_refines (GenStog.parse_cli_args ns)
+  obtain ⟨h1, h2, h3⟩ := RefineConfig.parse_cli_args_refines ns
+  unfold RefineConfig.Refines at hR
+  rw [h1] at hR
+  cases hc : GenStog.construct (GenStog.parse_cli_args ns) with
+  | error e => rw [hc] at hR; exact hR
+  | ok g =>
+    rw [hc] at hR
+    obtain ⟨a, b, c, d⟩ := hR
+    refine ⟨a, b, ?_, ?_⟩
+    · rw [c, h2]; rfl
+    · rw [d]
+      cases hm : (GenStog.parse_cli_args ns).Merging with
+      | none => rw [hm] at h3; cases h3
+      | some m => rw [hm] at h3; simpa using h3
+
+/-- P (generated code): `--Rdelta 0` is not a step: the flag form drops a zero Rdelta (Python truthiness) and the step comes from Rpoints -/
+theorem P_gen_flag_rdelta_zero (ns : ArgsNS ℝ) (h : ns.Rdelta = some 0) : (GenStog.parse_cli_args ns).Rdelta = none := by
+  cases hd : ns.density <;> simp [GenStog.parse_cli_args, h, hd, Cmp.ne]
+
 /-- the default file names, indexed as in `Config.filesOf` -/
 def fileName (stem : String) : Nat → String
   | 0 => stem ++ ".sq" | 1 => stem ++ ".gr" | 2 => "ft.dat" | 3 => stem ++ "_ft.sq" | 4 => stem ++ "_ft.gr"
